@@ -5,15 +5,19 @@ Fault model (AgModel/Sched.lean): `breakSink` (the consumer closes the output: e
 fails), `writeFail k` (the current write fails after `k` of its bytes went out), `readFail` (the
 next read returns an `io::Error`), and the start-up classification `startup` of `main`.
 
-What holds of the current code (`…` theorems) and what does not (`…_full` + `…_counterexample`):
+The model is the code after /repo 1b6cc1e (JsonPrinter returns write errors like every other
+printer) and 566c084 (a read error is reported and ends the read loop instead of being unwrapped);
+before them `C17_no_panic` was false (witnesses: `-o json` rows with a fault offset inside a row;
+`--file <directory>`), see known_findings.json.
 
-* a failed write ends the renderer at once, with exactly one `error:` line — or with a panic when
-  the row printer is `JsonPrinter` (`to_writer(..).expect`, printer.rs:249);
-* the reader notices only at its next `send`; rows are sent only for lines that survive the
-  pre-aggregate operators, and an aggregate on a non-terminal never writes before EOF.  So with
-  endless input and no further surviving row (or an aggregate) the run is endless:
-  `C17_unbounded_when_nothing_sent_counterexample`;
-* a read error is `unwrap`ped (lib.rs:283): `--file <directory>` panics.
+What holds (`…` theorems) and what does not (`…_full` + `…_counterexample`):
+
+* a failed write ends the renderer at once, with exactly one `error:` line; a failed read ends the
+  read loop with exactly one `error:` line; no thread panics, `join` succeeds (`C17_no_panic`);
+* the reader notices a closed *output* only at its next `send`; rows are sent only for lines that
+  survive the pre-aggregate operators, and an aggregate on a non-terminal never writes before EOF.
+  So with endless input and no further surviving row (or an aggregate) the run is endless:
+  `C17_unbounded_when_nothing_sent_counterexample` (open design-level finding).
 -/
 import AgProofs.Lemmas.Sched
 
@@ -24,18 +28,18 @@ variable {σ ρ : Type}
 
 /-! ### the renderer after a write fault -/
 
-/-- a failing write ends the renderer thread in the same step (receiver dropped), and marks the
-sink as broken -/
+/-- a failing write ends the renderer thread in the same step (receiver dropped) with exactly one
+more `error:` line, and marks the sink as broken -/
 theorem C17_renderer_stops_at_fault (c : Cfg σ ρ) (s s' : State σ ρ) (k : Nat)
     (h : next c s (.writeFail k) = some s') :
-    (s'.rend = .done ∨ s'.rend = .panicked) ∧ s'.rxAlive = false ∧ s'.sinkBroken = true := by
+    s'.rend = .done ∧ s'.rxAlive = false ∧ s'.sinkBroken = true ∧ s'.errs = s.errs + 1 := by
   cases hp : payload c s with
   | none => simp [next, hp] at h
   | some p =>
     simp only [next, hp] at h
-    (repeat' split at h) <;> first
-      | contradiction
-      | (cases h; simp [State.rxAlive])
+    split at h
+    · cases h; simp [State.rxAlive]
+    · contradiction
 
 /-- once the consumer is gone no (non-empty) write can succeed: the next write attempt is the
 failing one -/
@@ -49,7 +53,7 @@ within one `recv` and one write attempt after the consumer went away.) -/
 theorem C17_stops_after_fault (c : Cfg σ ρ) (s s' : State σ ρ) (hagg : c.agg = false)
     (hbroken : s.sinkBroken = true) (r : ρ) (hcur : s.cur = some r) (hrun : s.rend = .running)
     (l : Label) (hl : l = .recv ∨ l = .disconnect ∨ l = .timeout ∨ l = .write ∨ ∃ k, l = .writeFail k)
-    (h : next c s l = some s') : s'.rend = .done ∨ s'.rend = .panicked := by
+    (h : next c s l = some s') : s'.rend = .done := by
   have hp : payload c s = some (c.render r) := by simp [payload, hrun, hagg, hcur]
   rcases hl with rfl | rfl | rfl | rfl | ⟨k, rfl⟩
   · simp [next, hrun, hcur] at h
@@ -58,13 +62,54 @@ theorem C17_stops_after_fault (c : Cfg σ ρ) (s s' : State σ ρ) (hagg : c.agg
   · simp [next, hp, hbroken, Cfg.render] at h
   · exact (C17_renderer_stops_at_fault c s s' k h).1
 
-/-- **C17 (at most one error line).**  In every reachable state, whatever faults occurred, the
-renderer has printed at most one `error:` line; if it printed one it has ended. -/
+/-- **C17 (at most one error line per fault).**  In every reachable state, whatever faults
+occurred, the renderer has printed at most one `error:` line (write fault) and has ended if it
+printed one; the reader has printed at most one (read fault) and has left its loop if it did. -/
 theorem C17_at_most_one_error_line (c : Cfg σ ρ) (s : State σ ρ) (h : Reachable c s) :
-    s.errs ≤ 1 ∧ (s.errs = 1 → s.rend = .done) := by
-  rcases (reach_basic h).errs with h0 | ⟨h1, h2⟩
-  · simp [h0]
-  · simp [h1, h2]
+    (s.errs ≤ 1 ∧ (s.errs = 1 → s.rend = .done)) ∧
+    (s.rdErrs ≤ 1 ∧ (s.rdErrs = 1 → s.reader ≠ .running)) := by
+  constructor
+  · rcases (reach_basic h).errs with h0 | ⟨h1, h2⟩
+    · simp [h0]
+    · simp [h1, h2]
+  · rcases (reach_basic h).rdErrs with h0 | ⟨h1, h2⟩
+    · simp [h0]
+    · simp [h1, h2]
+
+theorem rdErrs_step {c : Cfg σ ρ} (s : State σ ρ) (l : Label) (s' : State σ ρ)
+    (hl : l ≠ .readFail) (h : next c s l = some s') : s'.rdErrs = s.rdErrs := by
+  cases l
+  case readFail => exact absurd rfl hl
+  all_goals
+    simp only [next, consume] at h
+    (repeat' split at h) <;>
+    first
+    | contradiction
+    | (cases h; rfl)
+
+/-- the consumer closing the output (no read fault in the schedule) produces at most **one**
+`error:` line in total -/
+theorem C17_one_error_line_when_output_closed (c : Cfg σ ρ) (ls : List Label)
+    (hnoread : Label.readFail ∉ ls) (s : State σ ρ) (h : run c ls (init c) = some s) :
+    s.errs + s.rdErrs ≤ 1 := by
+  have h0 : s.rdErrs = 0 := by
+    have step : ∀ (ls : List Label) (a b : State σ ρ), Label.readFail ∉ ls → run c ls a = some b →
+        b.rdErrs = a.rdErrs := by
+      intro ls
+      induction ls with
+      | nil => intro a b _ h; simp [run] at h; rw [h]
+      | cons l ls ih =>
+        intro a b hn h
+        simp only [run] at h
+        cases hnx : next c a l with
+        | none => simp [hnx] at h
+        | some a1 =>
+          simp only [hnx] at h
+          rw [ih a1 b (fun hm => hn (List.mem_cons_of_mem _ hm)) h,
+            rdErrs_step a l a1 (fun e => hn (e ▸ List.mem_cons_self ..)) hnx]
+    simpa [init] using step ls (init c) s hnoread h
+  have := (C17_at_most_one_error_line c s ⟨ls, h⟩).1.1
+  omega
 
 /-! ### the reader after the receiver is gone -/
 
@@ -107,16 +152,6 @@ theorem C17_reader_stops_at_next_send (c : Cfg σ ρ) (s s' : State σ ρ) (hrea
   · simp only [next, hq, hd] at h
     cases h
     exact ⟨⟨m, rfl⟩, rfl⟩
-
-theorem not_running_step {c : Cfg σ ρ} (s : State σ ρ) (l : Label) (s' : State σ ρ)
-    (hd : s.reader ≠ .running) (h : next c s l = some s') : s'.reader ≠ .running := by
-  cases l
-  all_goals
-    simp only [next, consume] at h
-    (repeat' split at h) <;>
-    first
-    | contradiction
-    | (cases h; simp_all)
 
 /-- lines read while the receiver is gone: all but the last produced no row, and if the reader is
 still in its loop with nothing to send, none of them did -/
@@ -167,9 +202,9 @@ theorem afterFault_step {c : Cfg σ ρ} (s0 s : State σ ρ) (l : Label) (s' : S
     | none => simp [next, hp] at h
     | some p =>
       simp only [next, hp] at h
-      (repeat' split at h) <;> first
-        | contradiction
-        | (cases h; exact ⟨hd', hch, new, hnew, hdl, hall⟩)
+      split at h
+      · cases h; exact ⟨hd', hch, new, hnew, hdl, hall⟩
+      · contradiction
   all_goals
     refine ⟨hd', ?_, new, ?_, hdl, ?_⟩ <;>
     · simp only [next] at h
@@ -196,12 +231,12 @@ theorem C17_reader_stops_partial (c : Cfg σ ρ) (s s' : State σ ρ) (hr : Reac
   obtain ⟨_, hd', hch, new, h1, h2, _⟩ := this
   exact ⟨hd', hch, new, h1, h2⟩
 
-/-- with a finite input the run ends after any faults at all (read error: by the panic) -/
+/-- with a finite input the run ends after any faults at all -/
 theorem C17_finite_input_terminates (c : Cfg σ ρ) (hcap : 0 < c.cap) (s : State σ ρ)
     (h : Reachable c s) (he : s.eof = true) :
     ∃ ls s', (∀ l ∈ ls, l.internal = true) ∧ run c ls s = some s' ∧
       (s'.reader = .done ∨ s'.reader = .panicked) :=
-  terminates hcap s h he
+  terminates hcap s h (Or.inl he)
 
 /-! ### the honest part: nothing sent, nothing learnt -/
 
@@ -214,17 +249,17 @@ def C17_stops_promptly_full : Prop :=
 /-- `* | where false`-like: no line survives -/
 def dropAll : Cfg Unit Unit :=
   { init := (), step := fun _ _ => ((), none), drain := fun _ => [], body := fun _ => [],
-    agg := false, aggFinal := fun _ => [], bodyPanics := false, cap := 1000 }
+    agg := false, aggFinal := fun _ => [], cap := 1000 }
 
 /-- `* | limit 1`-like: only the first line yields a row -/
 def firstOnly : Cfg Nat Unit :=
   { init := 0, step := fun i _ => (i + 1, if i = 0 then some () else none), drain := fun _ => [],
-    body := fun _ => [120], agg := false, aggFinal := fun _ => [], bodyPanics := false, cap := 1000 }
+    body := fun _ => [120], agg := false, aggFinal := fun _ => [], cap := 1000 }
 
 /-- `* | count`-like on a non-terminal: every line yields a row, the single write is at the end -/
 def countAll : Cfg Unit Unit :=
   { init := (), step := fun _ _ => ((), some ()), drain := fun _ => [], body := fun _ => [],
-    agg := true, aggFinal := fun rows => [48 + rows.length % 10, 10], bodyPanics := false, cap := 1000 }
+    agg := true, aggFinal := fun rows => [48 + rows.length % 10, 10], cap := 1000 }
 
 def cycle (one : List Label) : Nat → List Label
   | 0 => []
@@ -280,7 +315,7 @@ theorem C17_unbounded_limit_satisfied (n : Nat) :
       s'.consumed.length = s0.consumed.length + n := by
   have h0 : ∃ s0, firstOnlyFaulted = some s0 ∧ s0.rend = .done ∧ s0.errs = 1 ∧ Idle s0 ∧ 1 ≤ s0.st := by
     refine ⟨_, by simp [firstOnlyFaulted, run, next, init, splitNl, consume, firstOnly, State.rxAlive,
-      payload, Cfg.render, failPanics]; rfl, ?_⟩
+      payload, Cfg.render]; rfl, ?_⟩
     simp [Idle]
   obtain ⟨s0, e0, r0, er0, i0, st0⟩ := h0
   obtain ⟨s', hrun, ⟨hi, _⟩, hlen⟩ :=
@@ -310,112 +345,89 @@ theorem C17_unbounded_aggregate (n : Nat) :
       · simp) n { init countAll with sinkBroken := true } (by simp [P, Idle, init])
   refine ⟨s', by simp [run, next]; exact hrun, hb, hi.1, hr, hw, he, by simpa [init] using hlen⟩
 
-/-! ### panics -/
+/-! ### panics and read errors -/
 
-/-- the full promise: no schedule and no fault makes either thread panic -/
-def C17_no_panic_full : Prop :=
-  ∀ (σ ρ : Type) (c : Cfg σ ρ) (s : State σ ρ), Reachable c s →
-    s.reader ≠ .panicked ∧ s.rend ≠ .panicked
+theorem no_panic_step {c : Cfg σ ρ} (s : State σ ρ) (l : Label) (s' : State σ ρ)
+    (hp : s.reader ≠ .panicked ∧ s.rend ≠ .panicked ∧ s.joinErr = false)
+    (h : next c s l = some s') :
+    s'.reader ≠ .panicked ∧ s'.rend ≠ .panicked ∧ s'.joinErr = false := by
+  obtain ⟨p1, p2, p3⟩ := hp
+  cases l
+  case write =>
+    cases hpl : payload c s with
+    | none => simp [next, hpl] at h
+    | some p =>
+      simp only [next, hpl] at h
+      split at h
+      · cases h
+        rcases payload_some hpl with ⟨a, b, _⟩ | ⟨a, b, _⟩ <;> simp_all
+      · contradiction
+  case writeFail k =>
+    cases hpl : payload c s with
+    | none => simp [next, hpl] at h
+    | some p =>
+      simp only [next, hpl] at h
+      split at h
+      · cases h; simp_all
+      · contradiction
+  all_goals
+    simp only [next, consume] at h
+    (repeat' split at h) <;>
+    first
+    | contradiction
+    | (cases h; simp_all)
 
-/-- **C17 (no panic), partial.**  For the printers that propagate write errors (legacy, logfmt,
-format=…; and every aggregate output) and as long as no *read* fails, no thread panics and `join`
-succeeds, whatever the schedule and wherever the output is closed. -/
-theorem C17_no_panic_partial (c : Cfg σ ρ) (hprop : c.bodyPanics = false) (ls : List Label)
-    (hnoread : Label.readFail ∉ ls) (s : State σ ρ) (h : run c ls (init c) = some s) :
-    s.reader ≠ .panicked ∧ s.rend ≠ .panicked ∧ s.joinErr = false := by
-  have step : ∀ (ls : List Label) (s s' : State σ ρ), Label.readFail ∉ ls →
-      (s.reader ≠ .panicked ∧ s.rend ≠ .panicked ∧ s.joinErr = false) → run c ls s = some s' →
-      (s'.reader ≠ .panicked ∧ s'.rend ≠ .panicked ∧ s'.joinErr = false) := by
-    intro ls
-    induction ls with
-    | nil => intro s s' _ hp h; simp [run] at h; exact h ▸ hp
-    | cons l ls ih =>
-      intro s s' hn hp h
-      simp only [run] at h
-      cases hnx : next c s l with
-      | none => simp [hnx] at h
-      | some s1 =>
-        simp only [hnx] at h
-        refine ih s1 s' (fun hm => hn (List.mem_cons_of_mem _ hm)) ?_ h
-        obtain ⟨p1, p2, p3⟩ := hp
-        cases l
-        case readFail => exact absurd (List.mem_cons_self ..) hn
-        case write =>
-          cases hpl : payload c s with
-          | none => simp [next, hpl] at hnx
-          | some p =>
-            simp only [next, hpl] at hnx
-            split at hnx
-            · cases hnx
-              rcases payload_some hpl with ⟨a, b, _⟩ | ⟨a, b, _⟩ <;> simp_all
-            · contradiction
-        case writeFail k =>
-          cases hpl : payload c s with
-          | none => simp [next, hpl] at hnx
-          | some p =>
-            have hfp : failPanics c s k = false := by
-              simp only [failPanics, hprop]; split <;> simp
-            simp only [next, hpl, hfp] at hnx
-            (repeat' split at hnx) <;> first
-              | contradiction
-              | (cases hnx; simp_all)
-        all_goals
-          simp only [next, consume] at hnx
-          (repeat' split at hnx) <;>
-          first
-          | contradiction
-          | (cases hnx; simp_all)
-  exact step ls (init c) s hnoread (by simp [init]) h
+/-- **C17 (no panic), full.**  Whatever the schedule, the configuration (every output mode, record
+or aggregate) and the faults — output closed at any byte, read errors at any line —, neither thread
+panics and `join` succeeds.  (False before /repo 1b6cc1e and 566c084.) -/
+theorem C17_no_panic (c : Cfg σ ρ) (s : State σ ρ) (h : Reachable c s) :
+    s.reader ≠ .panicked ∧ s.rend ≠ .panicked ∧ s.joinErr = false :=
+  inv_reachable (P := fun s => s.reader ≠ .panicked ∧ s.rend ≠ .panicked ∧ s.joinErr = false)
+    (by simp [init]) no_panic_step s h
 
-/-- `-o json` record output: one row, the write of it fails inside the row → `.expect` panics -/
-def jsonCfg : Cfg Nat Bytes := tableCfg [some [123, 125]] [] false true 1000
+/-- a run never ends in the panicked phase: with finite input it ends by `process` returning -/
+theorem C17_finite_input_returns (c : Cfg σ ρ) (hcap : 0 < c.cap) (s : State σ ρ)
+    (h : Reachable c s) (he : s.eof = true) :
+    ∃ ls s', (∀ l ∈ ls, l.internal = true) ∧ run c ls s = some s' ∧ s'.reader = .done := by
+  obtain ⟨ls, s', h1, h2, h3⟩ := terminates hcap s h (Or.inl he)
+  refine ⟨ls, s', h1, h2, ?_⟩
+  rcases h3 with h3 | h3
+  · exact h3
+  · exact absurd h3 (C17_no_panic c s' (h.run h2)).1
 
-def jsonPanicRun : Option (RnPhase × Nat × Bool) :=
-  (run jsonCfg [.feed [10], .readLine, .send, .recv, .writeFail 0, .eof, .readEof, .dropTx, .join]
-    (init jsonCfg)).map
-    (fun s => (s.rend, s.errs, s.joinErr))
+/-- **C17 (read error).**  An `io::Error` from the input — at any line, in the middle of a line, on
+the very first read (`--file <directory>`: `startup .directory`) — takes the reader out of its loop
+with exactly one `error:` line; the rows of the lines read before are still handed over; … -/
+theorem C17_read_error_clean (c : Cfg σ ρ) (s s' : State σ ρ) (h : next c s .readFail = some s') :
+    s'.reader = .draining ∧ s'.rdErrs = s.rdErrs + 1 ∧ s'.outq = c.drain s.st ∧
+      s'.consumed = s.consumed ∧ s'.chan = s.chan ∧ s'.written = s.written := by
+  simp only [next] at h
+  (repeat' split at h) <;> first
+    | contradiction
+    | (cases h; simp)
 
-/-- **C17 counterexample (`-o json` records).**  printer.rs:249 `serde_json::to_writer(out,
-row).expect("failed to format")`: a write error inside the row panics the renderer thread; no
-`error:` line is printed. -/
-theorem C17_no_panic_json_counterexample : ¬ C17_no_panic_full := by
-  intro hfull
-  have hrun : ∃ s, run jsonCfg [.feed [10], .readLine, .send, .recv, .writeFail 0] (init jsonCfg) = some s ∧
-      s.rend = .panicked := by
-    refine ⟨_, by simp [run, next, init, splitNl, consume, jsonCfg, tableCfg, State.rxAlive, payload,
-      Cfg.render, failPanics]; rfl, rfl⟩
-  obtain ⟨s, h, hp⟩ := hrun
-  exact (hfull Nat Bytes jsonCfg s ⟨_, h⟩).2 hp
-
-/-- the same failure at the newline that follows the row (`writeln!(..)?`, render.rs:114) is
-propagated: the fault offset decides between a clean error and a panic -/
-example : (run jsonCfg [.feed [10], .readLine, .send, .recv, .writeFail 2] (init jsonCfg)).map
-    (fun s => (s.rend, s.errs, s.written)) = some (.done, 1, [123, 125]) := by decide
-
-example : jsonPanicRun = some (.panicked, 0, true) := by decide
-
-/-- **C17 counterexample (read error).**  lib.rs:283 `buf.read_until(b'\n', &mut line).unwrap()`:
-an `io::Error` from the input panics the main thread in every configuration.  `startup .directory`
-is this case: `File::open` succeeds on a directory and the first read fails with `EISDIR`. -/
-theorem C17_read_error_panics (c : Cfg σ ρ) :
-    ∃ s, next c (init c) .readFail = some s ∧ s.reader = .panicked := by
-  exact ⟨_, by simp [next, init]; rfl, rfl⟩
-
-theorem C17_no_panic_read_counterexample : ¬ C17_no_panic_full := by
-  intro hfull
-  obtain ⟨s, h, hp⟩ := C17_read_error_panics dropAll
-  exact (hfull Unit Unit dropAll s ⟨[.readFail], by simp [run, h]⟩).1 hp
+/-- … and from there finitely many thread steps return from `process`, even if the input never
+reaches EOF. -/
+theorem C17_read_error_terminates (c : Cfg σ ρ) (hcap : 0 < c.cap) (s s' : State σ ρ)
+    (hr : Reachable c s) (h : next c s .readFail = some s') :
+    ∃ ls s'', (∀ l ∈ ls, l.internal = true) ∧ run c ls s' = some s'' ∧ s''.reader = .done := by
+  have hd := (C17_read_error_clean c s s' h).1
+  obtain ⟨ls, s'', h1, h2, h3⟩ := terminates hcap s' (hr.step h) (Or.inr (by simp [hd]))
+  refine ⟨ls, s'', h1, h2, ?_⟩
+  rcases h3 with h3 | h3
+  · exact h3
+  · exact absurd h3 (C17_no_panic c s'' ((hr.step h).run h2)).1
 
 /-- `--file <missing>` is a clean error of `main`; `--file <directory>` enters `process` with a
-failing first read -/
+failing first read, i.e. `C17_read_error_clean` at line 0 -/
 theorem C17_startup : startup .missing = .cleanError ∧ startup .directory = .runs true := ⟨rfl, rfl⟩
 
 /-! ### non-vacuity -/
 
-/-- `C17_no_panic_partial`, `C17_stops_after_fault`, `C17_reader_stops_partial` apply to a run in
-which a row is written, the next write fails half-way, and the reader then fails to send a third
-row: one error line, clean end, output = the rows before the fault + the partial write -/
-def exCfg : Cfg Nat Bytes := tableCfg [some [97, 98], some [99, 100], some [101]] [] false false 1000
+/-- a run in which a row is written, the next write fails half-way, and the reader then fails to
+send a third row: one error line, clean end, output = the rows before the fault + the partial
+write (hypotheses of `C17_stops_after_fault`, `C17_reader_stops_partial`) -/
+def exCfg : Cfg Nat Bytes := tableCfg [some [97, 98], some [99, 100], some [101]] [] false 1000
 
 def exFaultRun : Option (RdPhase × RnPhase × Bytes × Nat × Nat) :=
   (run exCfg [.feed [10, 10, 10, 10], .eof, .readLine, .send, .recv, .write, .readLine, .send, .recv,
@@ -424,6 +436,24 @@ def exFaultRun : Option (RdPhase × RnPhase × Bytes × Nat × Nat) :=
 
 example : exFaultRun = some (.done, .done, [97, 98, 10, 99], 1, 3) := by decide
 
-example : exCfg.bodyPanics = false := rfl
+/-- `-o json`-like rows `{}`: a fault inside the row and a fault at its newline both end with one
+error line and the bytes that went out -/
+def jsonCfg : Cfg Nat Bytes := tableCfg [some [123, 125]] [] false 1000
+
+example : (run jsonCfg [.feed [10], .readLine, .send, .recv, .writeFail 1, .eof, .readEof, .dropTx, .join]
+    (init jsonCfg)).map (fun s => (s.reader, s.rend, s.errs, s.joinErr, s.written)) =
+    some (.done, .done, 1, false, [123]) := by decide
+
+example : (run jsonCfg [.feed [10], .readLine, .send, .recv, .writeFail 2] (init jsonCfg)).map
+    (fun s => (s.rend, s.errs, s.written)) = some (.done, 1, [123, 125]) := by decide
+
+/-- a read error after one line, in the middle of the second: the first row is still written, one
+error line from the reader, `process` returns (input never reached EOF) -/
+def exReadFail : Option (RdPhase × RnPhase × Bytes × Nat × Nat × Bool) :=
+  (run exCfg [.feed [10, 120], .readLine, .send, .absorb 1, .readFail, .recv, .write, .dropTx,
+    .disconnect, .join] (init exCfg)).map
+    (fun s => (s.reader, s.rend, s.written, s.errs, s.rdErrs, s.eof))
+
+example : exReadFail = some (.done, .done, [97, 98, 10], 0, 1, false) := by decide
 
 end Ag.C17
